@@ -660,6 +660,17 @@ class Sys:
         choi = S.reshape(d, d, d, d).transpose(0, 2, 1, 3).reshape(d * d, d * d)   # sum E(|i><j|) (x) |i><j|
         return {"eq": self.trace_defect(hs), "ineq": ref.psd_violation(choi)}
 
+    def generator_viol(self, L):
+        """sizes by which L fails to generate a CPTP semigroup: eq = max_b |Tr L(B_b)|; ineq = hermiticity-preservation
+        and conditional complete positivity  (1-|W><W|) Choi(L) (1-|W><W|) >= 0,  |W> = sum_i |ii>/sqrt d  (GKSL theorem)"""
+        d = self.d
+        S = self.superop(L)
+        choi = S.reshape(d, d, d, d).transpose(0, 2, 1, 3).reshape(d * d, d * d)
+        w = np.eye(d).reshape(-1) / np.sqrt(d)
+        P = np.eye(d * d) - np.outer(w, w)
+        return {"eq": self.trace_defect(L, generator=True),
+                "ineq": max(ref.herm_violation(choi) / 2, ref.psd_violation(P @ ref.herm_part(choi) @ P))}
+
     def apply(self, hs, rho):
         return self.op(np.asarray(hs) @ self.coeffs(rho))
 
@@ -673,7 +684,12 @@ class Sys:
         e2 = max(abs(v1["eq"] - v2["eq"]), abs(v1["ineq"] - v2["ineq"]))
         h = ref.rand_herm(self.d, rng)
         e3 = err(self.hs_of_commutator(h), ref.hs_of_map(self.B, lambda X: -1j * (h @ X - X @ h)))
-        return max(e1, e2, e3)
+        cs = [ref.rand_herm(self.d, rng) + 1j * ref.rand_herm(self.d, rng)]
+        L = ref.hs_of_map(self.B, lambda X: ref.gksl_rhs(h, cs, X))
+        D = L - self.hs_of_commutator(h)
+        g1, g2 = self.generator_viol(L), self.generator_viol(self.hs_of_commutator(h) - D)
+        e4 = max(g1["eq"], g1["ineq"]) + (0.0 if g2["ineq"] > 1e-3 else 1.0)     # valid generator accepted, anti-dissipator rejected
+        return max(e1, e2, e3, e4)
 
 
 STATE_FORMS = ["pure_state_vector", "density_mat", "density_matrix_vector", "state"]
@@ -1215,8 +1231,9 @@ def do_gate(R, S, name, ids, forms, el_forms, el_phys=True, maps=True, dims_arg=
         if lm is not None:
             R.num("cross-form", err(lh, lm), f"{ecat}:{tag}:cross-form[effective_lindbladian-vs-effective_lindbladian_mat]", info)
         if l_ref is not None:
-            # TP generator and PSD (zero) dissipator follow from L = -i[H,.] with H Hermitian
-            R.num("physical", err(lh, l_ref), f"{ecat}:{tag}:not-of-GKSL-form(-i[H,.])", info)
+            R.num("cross-form", err(lh, l_ref), f"{ecat}:{tag}:cross-form[effective_lindbladian-vs(-i[H,.])]", info)
+        gv = S.generator_viol(lh)      # TP generator and PSD dissipator (conditional complete positivity), independent of H
+        R.num("physical", max(gv["eq"], gv["ineq"]), f"{ecat}:{tag}:generator-not-physical", dict(info, sizes=gv))
         from scipy.linalg import expm
 
         ex = expm(np.asarray(lh, dtype=float) if not np.iscomplexobj(lh) else lh)
